@@ -3332,7 +3332,8 @@ class UTPM(Ring, RawAlgorithmsMixIn):
 
         for d in range(D):
             for p in range(P):
-                abar.data[d,p, ...] += numpy.fft.ifft(bbar.data[d,p], n=n, axis=axis)
+                # as in pb_fft: the adjoint of a real argument is real
+                numpy.add(abar.data[d,p, ...], numpy.fft.ifft(bbar.data[d,p], n=n, axis=axis), out=abar.data[d,p, ...], casting="unsafe")
 
         return abar
 
